@@ -340,3 +340,80 @@ def no_response_after_failed_response(p: Program) -> List[Item]:
     if n == 0:
         out.append(("ok", p.all_functions()[0], None, "", "no try statement of baize.asgi / baize.wsgi encloses a call that is handed the emit channel together with a handler (nothing to restart)"))
     return out
+
+
+# ----------------------------------------------------------------------------- WSGI: the application's iterable is never dropped
+def wsgi_iterable_never_dropped(p: Program, rep=None) -> List[Item]:
+    """Under WSGI a response object may be lazy: `response(environ, start_response)` of a generator-based response calls
+    start_response only when its iterable is advanced. Every adapter of the package that invokes an application / a
+    response with the caller's start_response therefore has to hand the returned iterable on - return it, `yield from` it,
+    or pass it to something that does - on EVERY path. A path that drops it (`return ()` for HEAD ...) answers without ever
+    calling start_response for streaming, file and event responses."""
+    from ..collect import run_paths
+    from ..flow import show, subterms
+
+    out: List[Item] = []
+    n_sites = 0
+    for fn in p.all_functions():
+        if not fn.module.name.startswith("baize.wsgi."):
+            continue
+        # syntactic pre-filter: a two-argument call whose second argument names a start_response
+        cand = [c for c in ast.walk(fn.node) if isinstance(c, ast.Call) and len(c.args) == 2 and not c.keywords and isinstance(c.args[1], ast.Name) and "start_response" in c.args[1].id.lower()]
+        own = [c for c in cand if all(q is fn.node or not isinstance(q, (ast.FunctionDef, ast.AsyncFunctionDef, ast.Lambda)) or q is fn.node for q in _fn_chain(c, fn))]
+        if not own:
+            continue
+        try:
+            paths, col, _it = run_paths(p, fn, fn.cls)
+        except Exception as e_:
+            out.append(("undecided", fn, None, "", f"{fn.fq}: not analysable ({e_})"))
+            continue
+        if rep is not None:
+            rep.analysed(fn.fq)
+            rep.cfg_paths += len(paths)
+        bad = None
+        seen = False
+        for pa in paths:
+            if pa.exit != "return":
+                continue
+            for i, e in enumerate(pa.events):
+                if e.kind != "call" or len(e.b) != 2 or e.c:
+                    continue
+                sr = e.b[1]
+                is_sr = (sr[0] == "param" and "start_response" in str(sr[1]).lower()) or (sr[0] in ("func", "closure") and "start_response" in str(sr[1]).lower())
+                if not is_sr or e.a[0] == "cls" or (e.a[0] == "func" and e.a[1].endswith("__init__")) or (e.a[0] == "attr" and e.a[2] == "__init__"):
+                    continue
+                seen = True
+                res = lambda t: isinstance(t, tuple) and len(t) >= 3 and t[0] == "call" and t[1] == e.a and t[2] == e.b
+                used = isinstance(pa.value, tuple) and any(res(t) for t in subterms(pa.value))
+                for l in pa.events[i + 1:]:
+                    if used:
+                        break
+                    for x in (l.a, l.b):
+                        if isinstance(x, tuple) and any(res(t) for t in subterms(x)):
+                            used = True
+                if not used and bad is None:
+                    node = col.nodes.get(e.tag, (None, fn))[0]
+                    bad = (node, show(("call", e.a, e.b, (), None))[:60], "; ".join(pa.fact_text())[:120])
+        if not seen:
+            continue
+        n_sites += 1
+        if bad:
+            out.append(("violation", fn, bad[0], f"iterable of {bad[1]} dropped",
+                        f"{fn.fq}: on the path where {bad[2] or 'always'}, the iterable returned by {bad[1]} is dropped (neither returned, yielded from nor handed on): a lazily evaluated response "
+                        "(stream, file, event-stream - their __call__ is a generator) then never calls start_response, and its body iterator is never closed"))
+        else:
+            out.append(("ok", fn, None, "", f"{fn.fq}: the iterable returned by the application called with start_response is handed on (returned / yielded from / passed on) on every path"))
+    if n_sites == 0:
+        out.append(("undecided", p.all_functions()[0], None, "", "no WSGI adapter calling an application with start_response found (anchor vanished?)"))
+    return out
+
+
+def _fn_chain(node: ast.AST, fn: FuncInfo):
+    """the function/lambda nodes between `node` and fn.node (inclusive) - empty when parents are not linked"""
+    out = []
+    for q in parents(node):
+        if isinstance(q, (ast.FunctionDef, ast.AsyncFunctionDef, ast.Lambda)):
+            out.append(q)
+            if q is fn.node:
+                break
+    return out
